@@ -236,11 +236,22 @@ def enterMain (c : Nat) (s : State) : R :=
   else ({ s with routesPending := s.ribNonEmpty, eorPending := true, kaSeen := false, isUp := true,
                  pc := .mainLoop c }, [.up])
 
-/-- the outbound half of one main-loop iteration. -/
-def mainSends (s : State) : R :=
-  (if s.refreshQ > 0 then (sendOn .refresh { s with refreshQ := s.refreshQ - 1 }).1 else (s, []))
-  ⊳ (fun (s : State) => if s.routesPending then (sendOn .update { s with routesPending := false }).1 else (s, []))
-  ⊳ (fun (s : State) => if s.eorPending then (sendOn .eor { s with eorPending := false }).1 else (s, []))
+/-- a write that may fail; `false`: it failed (the connection closed itself, `NetworkError`). -/
+abbrev W := R × Bool
+
+/-- continue with `f` unless a write already failed. -/
+def W.andSend (w : W) (f : State → W) : W :=
+  if w.2 then ((( f w.1.1).1.1, w.1.2 ++ (f w.1.1).1.2), (f w.1.1).2) else w
+
+/-- write `k` (on the state updated by `upd`) when `c` holds. -/
+def sendIf (c : State → Bool) (k : Kind) (upd : State → State) (s : State) : W :=
+  if c s then sendOn k (upd s) else ((s, []), true)
+
+/-- the outbound half of one main-loop iteration: queued ROUTE-REFRESH, pending routes, End-of-RIB. -/
+def mainSends (s : State) : W :=
+  (sendIf (fun s => decide (s.refreshQ > 0)) .refresh (fun s => { s with refreshQ := s.refreshQ - 1 }) s)
+  |>.andSend (sendIf (fun s => s.routesPending) .update (fun s => { s with routesPending := false }))
+  |>.andSend (sendIf (fun s => s.eorPending) .eor (fun s => { s with eorPending := false }))
 
 /-- the end of an iteration: `while not self._teardown` … `raise Notify(6, self._teardown)`. -/
 def mainExit (s : State) : R :=
@@ -259,18 +270,21 @@ def mainIter (m : Option Msg) (s : State) : R :=
     else
       let s1 := if s.cfg.hold0 ∧ m = some .keepalive then { s with kaSeen := true } else s
       let s2 := if m = some .refresh then { s1 with routesPending := s1.routesPending || s1.ribNonEmpty } else s1
-      mainSends s2 ⊳ mainExit
+      let w := mainSends s2
+      if w.2 then w.1 ⊳ mainExit else w.1 ⊳ onNetErr
 
 /-- an iteration of the `_main` loop when `peer.proto` is no longer the connection it reads
     (`_stop` dropped it, `handle_connection` adopted another one): the read times out, the
     outbound half runs on the adopted connection, on which nothing was negotiated. -/
 def staleIter (s : State) : R :=
-  (if s.refreshQ > 0 then (sendOn .refresh { s with refreshQ := s.refreshQ - 1 }).1 else (s, []))
-  ⊳ (fun (s : State) => ({ s with routesPending := false }, []))
-  ⊳ (fun (s : State) => if s.eorPending then (sendOn .keepalive { s with eorPending := false }).1 else (s, []))
-  ⊳ (fun (s : State) => match s.teardown with
-        | none => (s, [])
-        | some code => if s.cfg.graceful then onOther s else onNotify 6 code s)
+  let w := (sendIf (fun s => decide (s.refreshQ > 0)) .refresh (fun s => { s with refreshQ := s.refreshQ - 1 }) s)
+    |>.andSend (fun s => (({ s with routesPending := false }, []), true))
+    |>.andSend (sendIf (fun s => s.eorPending) .keepalive (fun s => { s with eorPending := false }))
+  if w.2 then
+    w.1 ⊳ fun (s : State) => match s.teardown with
+      | none => (s, [])
+      | some code => if s.cfg.graceful then onOther s else onNotify 6 code s
+  else w.1 ⊳ onNetErr
 
 def sendKa (c : Nat) (s : State) : R :=
   let w := sendOn .keepalive s
